@@ -7,6 +7,8 @@ verus! {
 
 //@ item actors/miner/src/partition_state.rs PowerPair
 //@ item actors/miner/src/partition_state.rs Partition
+//@ item actors/miner/src/quantize.rs QuantSpec attr="#[derive(Clone, Copy)]"
+//@ include prelude/miner_partition_assumed.rs
 // derive(Clone, Default) of PowerPair re-stated (derives are stripped by the extractor); verified, not assumed
 impl Clone for PowerPair {
     fn clone(&self) -> (r: Self) ensures r.raw@ == self.raw@, r.qa@ == self.qa@ { PowerPair { raw: self.raw.clone(), qa: self.qa.clone() } }
@@ -25,6 +27,16 @@ impl<'a> vstd::std_specs::ops::SubSpecImpl<&'a PowerPair> for &'a PowerPair {
     open spec fn sub_req(self, rhs: &'a PowerPair) -> bool { true }
     uninterp spec fn sub_spec(self, rhs: &'a PowerPair) -> PowerPair;
 }
+impl<'a> vstd::std_specs::ops::AddAssignSpecImpl<&'a PowerPair> for PowerPair {
+    open spec fn obeys_add_assign_spec() -> bool { false }
+    open spec fn add_assign_req(&self, rhs: &'a PowerPair) -> bool { true }
+    uninterp spec fn add_assign_spec(&self, rhs: &'a PowerPair) -> &PowerPair;
+}
+impl vstd::std_specs::ops::NegSpecImpl for PowerPair {
+    open spec fn obeys_neg_spec() -> bool { false }
+    open spec fn neg_req(self) -> bool { true }
+    uninterp spec fn neg_spec(self) -> PowerPair;
+}
 impl<'a> vstd::std_specs::ops::SubAssignSpecImpl<&'a PowerPair> for PowerPair {
     open spec fn obeys_sub_assign_spec() -> bool { false }
     open spec fn sub_assign_req(&self, rhs: &'a PowerPair) -> bool { true }
@@ -39,6 +51,12 @@ impl<'a> vstd::std_specs::ops::SubAssignSpecImpl<&'a PowerPair> for PowerPair {
 //@ end
 //@ fn actors/miner/src/partition_state.rs "<&PowerPair as Sub>::sub"
     ensures r.raw@ == self.raw@ - rhs.raw@, r.qa@ == self.qa@ - rhs.qa@,
+//@ end
+//@ fn actors/miner/src/partition_state.rs "<PowerPair as AddAssign>::add_assign"
+    ensures final(self).raw@ == old(self).raw@ + rhs.raw@, final(self).qa@ == old(self).qa@ + rhs.qa@,
+//@ end
+//@ fn actors/miner/src/partition_state.rs "<=PowerPair as Neg>::neg"
+    ensures r.raw@ == -self.raw@, r.qa@ == -self.qa@,
 //@ end
 //@ fn actors/miner/src/partition_state.rs "<PowerPair as SubAssign>::sub_assign"
     ensures final(self).raw@ == old(self).raw@ - rhs.raw@, final(self).qa@ == old(self).qa@ - rhs.qa@,
@@ -96,6 +114,47 @@ pub open spec fn power_ok(p: Partition) -> bool {
         final(self).unproven_power == old(self).unproven_power, final(self).faulty_power == old(self).faulty_power,
         final(self).expirations_epochs == old(self).expirations_epochs, final(self).early_terminated == old(self).early_terminated,
         bf_nested(*old(self)) ==> bf_nested(*final(self)),
+//@ end
+
+// ======================= faults and recoveries: the power delta reported upward is exactly the change of ACTIVE power (C02) =======================
+pub open spec fn act_raw(p: Partition) -> int { p.live_power.raw@ - p.faulty_power.raw@ - p.unproven_power.raw@ }
+pub open spec fn act_qa(p: Partition) -> int { p.live_power.qa@ - p.faulty_power.qa@ - p.unproven_power.qa@ }
+
+//@ fn actors/miner/src/partition_state.rs Partition::add_faults ret=res
+    ensures
+        res.is_ok() ==> ({
+            let (power_delta, new_faulty) = res->Ok_0;
+            // "a sector contributes no power ... while it is faulty": the delta sent to the power actor equals the change of active power,
+            // so never-proven sectors (which never contributed) are not subtracted
+            &&& power_delta.raw@ == act_raw(*final(self)) - act_raw(*old(self))
+            &&& power_delta.qa@ == act_qa(*final(self)) - act_qa(*old(self))
+            &&& final(self).faulty_power.raw@ == old(self).faulty_power.raw@ + new_faulty.raw@
+            &&& final(self).faulty_power.qa@ == old(self).faulty_power.qa@ + new_faulty.qa@
+            &&& final(self).live_power.raw@ == old(self).live_power.raw@ && final(self).live_power.qa@ == old(self).live_power.qa@
+            &&& final(self).recovering_power == old(self).recovering_power
+            // set effects: the sectors become faulty and leave the unproven set; nothing else moves
+            &&& final(self).faults@ =~= old(self).faults@.union(sector_numbers@)
+            &&& final(self).unproven@ =~= old(self).unproven@.difference(sector_numbers@)
+            &&& final(self).sectors == old(self).sectors && final(self).recoveries == old(self).recoveries && final(self).terminated == old(self).terminated
+            // and the result passed the partition's own nesting check
+            &&& bf_nested(*final(self)) && power_ok(*final(self))
+        }),
+//@ end
+
+//@ fn actors/miner/src/partition_state.rs Partition::recover_faults
+    ensures
+        r.is_ok() ==> ({
+            let power = r->Ok_0;
+            // recovered sectors leave faults and recoveries; faulty and recovering power drop by the same amount: active power rises by it
+            &&& final(self).faults@ =~= old(self).faults@.difference(old(self).recoveries@)
+            &&& final(self).recoveries@ =~= vstd::set::Set::<u64>::empty()
+            &&& final(self).faulty_power.raw@ == old(self).faulty_power.raw@ - power.raw@ && final(self).faulty_power.qa@ == old(self).faulty_power.qa@ - power.qa@
+            &&& final(self).recovering_power.raw@ == old(self).recovering_power.raw@ - power.raw@ && final(self).recovering_power.qa@ == old(self).recovering_power.qa@ - power.qa@
+            &&& power.raw@ == act_raw(*final(self)) - act_raw(*old(self)) && power.qa@ == act_qa(*final(self)) - act_qa(*old(self))
+            &&& final(self).sectors == old(self).sectors && final(self).unproven == old(self).unproven && final(self).terminated == old(self).terminated
+            &&& final(self).live_power == old(self).live_power && final(self).unproven_power == old(self).unproven_power
+            &&& bf_nested(*final(self)) && power_ok(*final(self))
+        }),
 //@ end
 
 //@ fn actors/miner/src/partition_state.rs Partition::activate_unproven
